@@ -24,7 +24,7 @@ func init() {
 	Register("C35", &Info{
 		Run:   runC35,
 		Quick: 7500, Thor: 1000000,
-		Rule: "a world = one server Config with a history of ticket operations: a real TLS 1.2 or 1.3 connection supplies genuine SessionState values (captured through Config.WrapSession), variants are derived by editing Extra/EarlyData; operations drawn per world: EncryptTicket/DecryptTicket round trip, single-bit flips at every region (IV, ciphertext, MAC), truncation/extension, explicit key sets and rotations through SetSessionTicketKeys (new key in front: old tickets still open; old key removed: no state), automatic key rotation under server clock jumps (1 h .. 30 d against the 7-day key lifetime) and walks (2-14 steps of 7 h .. 3 d with the keys used after every step), a third of the worlds with a client certificate whose cross-signed intermediate gives the sealed state two verified chains, opening tickets with an Config.Clone() snapshots that must keep the key set they were taken with, independent AES-CTR + HMAC-SHA256 sealer keyed by TicketKeyFromBytes and sealing tickets independently for DecryptTicket, and finally a resumption through a forged ClientSessionState (drawn master secret patched into the state) (with or without the server's certificates in it) that must resume with the supplied version/suite and equal exporters on both sides, followed by an ordinary connection over the same session cache (and, when the supplied suite differs from the one sealed in the ticket, must not complete as a resumption under another suite); one world in six: a Config with the legacy SessionTicketKey field set, 1-3 tasks calling EncryptTicket concurrently with one SetSessionTicketKeys call under a scheduler that switches at every lock operation - afterwards the keys in force must be the installed ones; non-trivial = a ticket was decrypted or rejected after a mutation/rotation; distinct = (operation sequence, key history, clock jumps)",
+		Rule: "a world = one server Config with a history of ticket operations: a real TLS 1.2 or 1.3 connection supplies genuine SessionState values (captured through Config.WrapSession), variants are derived by editing Extra/EarlyData; operations drawn per world: EncryptTicket/DecryptTicket round trip, single-bit flips at every region (IV, ciphertext, MAC), truncation/extension, explicit key sets and rotations through SetSessionTicketKeys (new key in front: old tickets still open; old key removed: no state; oldest key replaced by a new one while the sealing key stays), automatic key rotation under server clock jumps (1 h .. 30 d against the 7-day key lifetime) and walks (2-14 steps of 7 h .. 3 d with the keys used after every step), a third of the worlds with a client certificate whose cross-signed intermediate gives the sealed state two verified chains, opening tickets with an Config.Clone() snapshots that must keep the key set they were taken with, independent AES-CTR + HMAC-SHA256 sealer keyed by TicketKeyFromBytes and sealing tickets independently for DecryptTicket, and finally a resumption through a forged ClientSessionState (drawn master secret patched into the state) (with or without the server's certificates in it) that must resume with the supplied version/suite and equal exporters on both sides, followed by an ordinary connection over the same session cache (and, when the supplied suite differs from the one sealed in the ticket, must not complete as a resumption under another suite); one world in six: a Config with the legacy SessionTicketKey field set, 1-3 tasks calling EncryptTicket concurrently with one SetSessionTicketKeys call under a scheduler that switches at every lock operation - afterwards the keys in force must be the installed ones; non-trivial = a ticket was decrypted or rejected after a mutation/rotation; distinct = (operation sequence, key history, clock jumps)",
 		Assumptions: []string{"the independent sealer follows the documented ticket format (16-byte IV, AES-128-CTR, HMAC-SHA256 over IV and ciphertext) with keys from TicketKeyFromBytes",
 			"automatic rotation: no claim between 6 and 8 days"},
 		Real: []string{"utls server Config ticket code, client session injection (MakeClientSessionState, SetSessionState) from /repo"},
@@ -189,10 +189,12 @@ func runC35(c *Ctx) {
 	ch := c.Ch
 	ver := []uint16{tls.VersionTLS12, tls.VersionTLS13}[ch.Pick(2, "ver")]
 	explicitKeys := ch.Bool(60, "explicit-keys")
-	var k0, k1, k2 [32]byte
+	var k0, k1, k2, k3, k4 [32]byte
 	ch.Bytes(k0[:], "k0")
 	ch.Bytes(k1[:], "k1")
 	ch.Bytes(k2[:], "k2")
+	ch.Bytes(k3[:], "k3")
+	ch.Bytes(k4[:], "k4")
 	w := c.NewWorld(simrt.Config{})
 	var clockOff time.Duration
 	now := func() time.Time { return time.Now().Add(clockOff) }
@@ -277,7 +279,8 @@ func runC35(c *Ctx) {
 	}
 	var tickets []sealed
 	keyHist := []int{0} // explicit keys currently installed, front first
-	keys := [][32]byte{k0, k1, k2}
+	keys := [][32]byte{k0, k1, k2, k3, k4}
+	nextKey := 1 // keys are taken into use in index order
 	// clones taken along the way keep the key set they were cloned with, whatever happens to the
 	// original afterwards
 	type cloneRec struct {
@@ -384,10 +387,11 @@ func runC35(c *Ctx) {
 			}
 			c.R.NonTrivial = true
 		case 3: // rotate explicit keys: new key in front, old kept
-			if !explicitKeys || len(keyHist) >= 3 {
+			if !explicitKeys || len(keyHist) >= 3 || nextKey >= len(keys) {
 				continue
 			}
-			nk := len(keyHist)
+			nk := nextKey
+			nextKey++
 			keyHist = append([]int{nk}, keyHist...)
 			var ks [][32]byte
 			for _, i := range keyHist {
@@ -396,9 +400,28 @@ func runC35(c *Ctx) {
 			scfg.SetSessionTicketKeys(ks)
 			ops = append(ops, fmt.Sprintf("rotate(front=%d,keep=%v)", nk, keyHist[1:]))
 			c.Fault("key-rotation", 1)
-		case 4: // retire the oldest key
+		case 4: // retire the oldest key - or replace it by a key never used before (same number of keys, same sealing key)
 			if !explicitKeys || len(keyHist) < 2 {
 				continue
+			}
+			if nextKey < len(keys) && ch.Bool(50, "replace-tail") {
+				keyHist[len(keyHist)-1] = nextKey
+				nextKey++
+				var ks [][32]byte
+				for _, i := range keyHist {
+					ks = append(ks, keys[i])
+				}
+				scfg.SetSessionTicketKeys(ks)
+				ops = append(ops, fmt.Sprintf("replace-tail(now=%v)", keyHist))
+				c.Fault("key-replace-tail", 1)
+				// a ticket sealed by the independent sealer under the new decryption-only key must open
+				var iv [16]byte
+				ch.Bytes(iv[:], "tail-iv")
+				tk := keyHist[len(keyHist)-1]
+				if d, _ := scfg.DecryptTicket(indepSeal(tls.TicketKeyFromBytes(keys[tk]), iv, baseBytes), cs0); d == nil {
+					fail("ticket-rejected-although-key-configured tail", "a ticket sealed under the newly installed decryption-only key %d is refused (keys now %v)", tk, keyHist)
+				}
+				break
 			}
 			keyHist = keyHist[:len(keyHist)-1]
 			var ks [][32]byte
